@@ -39,3 +39,11 @@ def jobs(tier):
         J.append(Job("c10", "legacy", "3,0,0,0", workers=8))
         J.append(Job("c10", "legacy", "2,1,0,0", workers=8))
     return J
+
+LEVEL_TEXT = ("Exhaustive enumeration (within preemption/store-delay budgets) of the schedules of 7 small scenarios over the real "
+              "wfcqueue/wfqueue code; every terminal history is decided by a brute-force linearizability search. Bounded model "
+              "checking is the right level: the property quantifies over schedules of short operations and bugs of this class "
+              "need 1-2 preemptions.")
+LEVEL_NOTE = ("Trusted: x86-TSO store-buffer model and gcc's C11->x86 mapping, vrt's mutex/futex models, the FIFO specification "
+              "(splice modelled with two linearization points: source emptied, destination appended). Bounds: <=3 threads, <=4 "
+              "nodes, P<=2 (+P1D1) quick, P<=3 (+P2D1) thorough.")
